@@ -26,6 +26,9 @@ RULE = (
     "the run raises and the output path is absent / byte-identical to the sentinel with unchanged "
     "mtime.  Non-trivial = success case with a terminal residue of each class present, or failure "
     "injected after parsing succeeded."
+    ' malformed-enum: EXHAUSTIVE malformed-input kinds (incl. mmCIF rows with unreadable coordinate '
+    '/ residue number, non-integral user force fields with 4 offsets) x 4 fixed structures (one of '
+    '14 residues) x output absent/pre-filled.'
 )
 ASSUMPTIONS = [
     "failures of secondary outputs (--pdb-output/--apbs-input) after a complete PQR are outside the statement",
